@@ -145,7 +145,72 @@ func c19(x *ctx) {
 	if !thorough {
 		// quick: order variants on all programs, split variants on programs mentioning the class
 	}
+	// generated classes with an extends chain and an override (Gbase <- Gsub <- Gleaf): one file per class is
+	// the reference; variants split Gsub into a fragment that carries `extends` and one that does not, in
+	// every load order relative to each other and to the parent's file.
+	ret := func(t string) gen.CfgRet { return gen.CfgRet{Type: []string{t}} }
+	newM := func(cls string) gen.CfgMethod {
+		return gen.CfgMethod{Name: "new", Arguments: []gen.CfgArg{}, ReturnType: ret(cls)}
+	}
+	gbase := gen.CfgClass{Frame: "Builtin", Class: "Gbase", ClassMethods: []gen.CfgMethod{newM("Gbase")}, InstanceMethods: []gen.CfgMethod{
+		{Name: "mm", Arguments: []gen.CfgArg{{Type: []string{"Int"}}}, ReturnType: ret("Int")},
+		{Name: "nn", Arguments: []gen.CfgArg{}, ReturnType: ret("String")}}}
+	gsubA := gen.CfgClass{Frame: "Builtin", Class: "Gsub", Extends: []string{"Gbase"}, ClassMethods: []gen.CfgMethod{newM("Gsub")}, InstanceMethods: []gen.CfgMethod{
+		{Name: "kk", Arguments: []gen.CfgArg{{Type: []string{"Symbol"}}}, ReturnType: ret("Bool")}}}
+	gsubB := gen.CfgClass{Frame: "Builtin", Class: "Gsub", InstanceMethods: []gen.CfgMethod{
+		{Name: "mm", Arguments: []gen.CfgArg{{Type: []string{"String"}}, {Type: []string{"String"}}}, ReturnType: ret("Float")}}}
+	gsubWhole := gsubA
+	gsubWhole.InstanceMethods = append(append([]gen.CfgMethod{}, gsubA.InstanceMethods...), gsubB.InstanceMethods...)
+	gleaf := gen.CfgClass{Frame: "Builtin", Class: "Gleaf", Extends: []string{"Gsub"}, ClassMethods: []gen.CfgMethod{newM("Gleaf")}, InstanceMethods: []gen.CfgMethod{
+		{Name: "ll", Arguments: []gen.CfgArg{}, ReturnType: ret("Symbol")}}}
+	genRef := gen.Merge(shipped, map[string]string{"gbase.json": gbase.JSON(), "gsub.json": gsubWhole.JSON(), "gleaf.json": gleaf.JSON()})
+	cfgFiles["gen-ref"] = genRef
+	x.pool.NewCfgDir("gen-ref", genRef)
+	type gvar struct{ name, desc string }
+	var gvars []gvar
+	gadd := func(name, desc string, extra map[string]string) {
+		files := gen.Merge(shipped, extra)
+		cfgFiles[name] = files
+		x.pool.NewCfgDir(name, files)
+		gvars = append(gvars, gvar{name, desc})
+	}
+	for _, order := range [][]string{{"base", "A", "B", "leaf"}, {"base", "B", "A", "leaf"}, {"A", "B", "base", "leaf"}, {"B", "A", "base", "leaf"}, {"A", "base", "B", "leaf"},
+		{"B", "base", "A", "leaf"}, {"leaf", "A", "B", "base"}, {"leaf", "B", "base", "A"}, {"A", "leaf", "base", "B"}} {
+		extra := map[string]string{}
+		for i, part := range order {
+			content := map[string]string{"base": gbase.JSON(), "A": gsubA.JSON(), "B": gsubB.JSON(), "leaf": gleaf.JSON()}[part]
+			extra[fmt.Sprintf("g%d_%s.json", i, strings.ToLower(part))] = content
+		}
+		gadd("gen-split-"+strings.Join(order, "-"), "Gsub split into a fragment with `extends` (A) and one without (B); load order "+strings.Join(order, ","), extra)
+	}
+	for _, order := range [][]string{{"sub", "base", "leaf"}, {"leaf", "sub", "base"}, {"leaf", "base", "sub"}} {
+		extra := map[string]string{}
+		for i, part := range order {
+			content := map[string]string{"base": gbase.JSON(), "sub": gsubWhole.JSON(), "leaf": gleaf.JSON()}[part]
+			extra[fmt.Sprintf("g%d_%s.json", i, part)] = content
+		}
+		gadd("gen-order-"+strings.Join(order, "-"), "one file per class, load order "+strings.Join(order, ","), extra)
+	}
+	genProgs := []gen.Prog{}
+	for ci, cls := range []string{"Gbase", "Gsub", "Gleaf"} {
+		calls := []string{"nn", "mm(7)", "mm(\"t\", \"t\")", "kk(:q)", "ll", "zork"}
+		for mi, c := range calls {
+			genProgs = append(genProgs, gen.Prog{Name: fmt.Sprintf("./gcfg_%d_%d.rb", ci, mi), Src: "rv = " + cls + ".new\ndbtp rv." + c + "\n"})
+		}
+	}
 	x.metamorphic(func(emit func(*mItem)) {
+		for _, p := range genProgs {
+			argv := []string{p.Name}
+			base := &engine.Case{Cfg: "gen-ref", Files: map[string]string{p.Name: p.Src}, Argv: argv}
+			for _, v := range gvars {
+				v := v
+				p := p
+				emit(&mItem{baseKey: "gen|" + p.Name, base: base,
+					variant: &engine.Case{Cfg: v.name, Files: map[string]string{p.Name: p.Src}, Argv: argv},
+					sig:     func(b, vo string) string { return fmt.Sprintf("cfg-%s:%s@%s", v.name, diffClass(b, vo), lastStmt(p.Src)) },
+					desc:    fmt.Sprintf("%s; program %q", v.desc, p.Src)})
+			}
+		}
 		for _, p := range progs {
 			argv := []string{p.Name, "-i"}
 			base := &engine.Case{Files: map[string]string{p.Name: p.Src}, Argv: argv}
@@ -264,16 +329,22 @@ func c20(x *ctx) {
 					}
 				}
 				ims = append(ims, methods[0])
-				cls := gen.CfgClass{Frame: "Xfr", Class: cn, InstanceMethods: ims, ClassMethods: cmethods}
-				name := fmt.Sprintf("collide-%d-%s", pi, cn)
-				files := gen.Merge(shipped, map[string]string{"zzz_extra.json": cls.JSON()})
-				cfgFiles[name] = files
-				x.pool.NewCfgDir(name, files)
-				nCollide++
-				emit(&mItem{baseKey: p.Name, base: base,
-					variant: &engine.Case{Cfg: name, Files: map[string]string{p.Name: p.Src}, Argv: argv},
-					sig:     func(b, vo string) string { return fmt.Sprintf("extra-collide-short-name:%s@%s:%s", diffClass(b, vo), p.Name, cn) },
-					desc:    fmt.Sprintf("extra configured class Xfr::%s shares its short name with user class %s of %s", cn, cn, p.Name)})
+				// the colliding class lives in a foreign frame: a plain one, and one nested under Builtin
+				for fi, frame := range []string{"Xfr", "Builtin::Xfr"} {
+					cls := gen.CfgClass{Frame: frame, Class: cn, InstanceMethods: ims, ClassMethods: cmethods}
+					name := fmt.Sprintf("collide-%d-%s-%d", pi, cn, fi)
+					files := gen.Merge(shipped, map[string]string{"zzz_extra.json": cls.JSON()})
+					cfgFiles[name] = files
+					x.pool.NewCfgDir(name, files)
+					nCollide++
+					frame := frame
+					emit(&mItem{baseKey: p.Name, base: base,
+						variant: &engine.Case{Cfg: name, Files: map[string]string{p.Name: p.Src}, Argv: argv},
+						sig: func(b, vo string) string {
+							return fmt.Sprintf("extra-collide-short-name:%s:%s@%s:%s", frame, diffClass(b, vo), p.Name, cn)
+						},
+						desc: fmt.Sprintf("extra configured class %s::%s shares its short name with user class %s of %s", frame, cn, cn, p.Name)})
+				}
 			}
 		}
 	}, &mOpts{cfgFiles: cfgFiles})
